@@ -11,8 +11,8 @@ script, how many signatures are required, which message every verification recei
 `checkSigs cfg C tx = .ok addrs` is "the validator accepts the signatures of `tx`; `tx.SignedAddr = addrs`".
 `tx.hashInput` are the unsigned bytes captured by the decoder (`Model/Tx.lean`, C19), `C.H` the double SHA-256.
 
-Two recorded defects are configuration switches (`Cfg`): `dupKeys` (a script may list one key several times and each
-occurrence counts) and `shortSig` (the library call panics).  Everything is proved for every configuration unless
+One recorded defect is a configuration switch (`Cfg`): `dupKeys` (a script may list one key several times and each
+occurrence counts); a panic of the library call is a failed verification ( the guarded library call.  Everything is proved for every configuration unless
 a hypothesis says otherwise.
 -/
 namespace OntVerif.Props.C16
@@ -29,17 +29,88 @@ def SetAccepted (C : Crypto Key Sig) (tx : Tx) (rs : Bytes × Bytes) (a : Addr) 
     keys.length ≤ MULTI_SIG_MAX_PUBKEY_SIZE ∧ m ≤ sigs.length ∧
     SetOK C.toLib (fun k s => C.verify k (C.H tx.hashInput) s) keys m sigs ∧ setAddr C.toLib keys m = .ok a
 
-/-- **Accepted ⇒ correctly signed and paid by a signer.** -/
-theorem C16_accept_sound (cfg : Cfg) (C : Crypto Key Sig) (tx : Tx) (addrs : List Addr)
+/-- Accepted ⇒ correctly signed and paid by a signer (the check as a function of the decoded fields). -/
+theorem C16_accept_sound_fields (cfg : Cfg) (C : Crypto Key Sig) (tx : Tx) (addrs : List Addr)
     (h : checkSigs cfg C tx = .ok addrs) :
     tx.sigs.length ≤ TX_MAX_SIG_SIZE ∧ All2 (SetAccepted C tx) tx.sigs addrs ∧ tx.payer ∈ addrs := by
-  obtain ⟨h1, h2, h3⟩ := checkSigsWith_ok cfg C.toLib (verifier cfg C tx) tx addrs h
+  obtain ⟨h1, h2, h3⟩ := checkSigsWith_ok cfg C.toLib (verifier C tx) tx addrs h
   refine ⟨h1, ?_, h3⟩
   refine (checkAll_ok cfg C.toLib _ tx.sigs addrs h2).imp ?_
   intro rs a hrs
   obtain ⟨sigs, m, keys, f⟩ := checkSigSet_ok cfg C.toLib _ rs a hrs
   refine ⟨sigs, m, keys, f.parsed, f.m_pos, f.m_le, f.n_le, f.enough, ?_, f.addr⟩
-  exact f.matched.imp (fun k s hv => (vres_ok cfg _).mp hv)
+  exact f.matched.imp (fun k s hv => (guard_ok _).mp hv)
+
+/-- **Accepted ⇒ correctly signed and paid by a signer, for EVERY state of the transaction object.**
+The validator's input is a `types.Transaction` whose exported field `SignedAddr` may already have been filled -
+by `GetSignatureAddresses()` (which the transaction pool calls before validation and which verifies nothing), by an
+earlier `VerifyTransaction`, or by direct assignment.  Whatever `pre` is: acceptance establishes the signature
+facts about `tx` itself, and afterwards `SignedAddr` is exactly the validator's list. -/
+theorem C16_accept_sound (cfg : Cfg) (C : Crypto Key Sig) (tx : Tx) (pre : List Addr) (addrs : List Addr)
+    (h : (checkSigsObj cfg C ⟨tx, pre⟩).1 = .ok addrs) :
+    tx.sigs.length ≤ TX_MAX_SIG_SIZE ∧ All2 (SetAccepted C tx) tx.sigs addrs ∧ tx.payer ∈ addrs ∧
+      (checkSigsObj cfg C ⟨tx, pre⟩).2 = ⟨tx, addrs⟩ := by
+  unfold checkSigsObj at h ⊢
+  cases hc : checkSigs cfg C tx with
+  | ok as =>
+    simp only [hc, Verdict.ok.injEq] at h ⊢
+    subst h
+    obtain ⟨h1, h2, h3⟩ := C16_accept_sound_fields cfg C tx as hc
+    exact ⟨h1, h2, h3, rfl⟩
+  | reject => simp [hc] at h
+  | panic => simp [hc] at h
+
+/-- the verdict does not depend on the state of the object … -/
+theorem C16_state_irrelevant (cfg : Cfg) (C : Crypto Key Sig) (wasmOK : Bytes → Bool) (tx : Tx) (pre pre' : List Addr) :
+    (checkSigsObj cfg C ⟨tx, pre⟩).1 = (checkSigsObj cfg C ⟨tx, pre'⟩).1 ∧
+    (verifyObj cfg C wasmOK ⟨tx, pre⟩).1 = (verifyObj cfg C wasmOK ⟨tx, pre'⟩).1 := by
+  have e : (checkSigsObj cfg C ⟨tx, pre⟩).1 = (checkSigsObj cfg C ⟨tx, pre'⟩).1 := by
+    unfold checkSigsObj
+    cases checkSigs cfg C tx <;> rfl
+  refine ⟨e, ?_⟩
+  unfold verifyObj checkSigsObj
+  cases checkSigs cfg C tx <;> simp <;> split <;> rfl
+
+theorem runPres_tx (cfg : Cfg) (C : Crypto Key Sig) (wasmOK : Bytes → Bool) (o : TxObj) (ops : List PreOp) :
+    (runPres cfg C wasmOK o ops).2.tx = o.tx := by
+  induction ops generalizing o with
+  | nil => rfl
+  | cons op r ih =>
+    simp only [runPres]
+    rw [ih]
+    cases op with
+    | getAddrs => simp only [runPre, getSigAddrs]; split <;> rfl
+    | verify =>
+      simp only [runPre, verifyObj, checkSigsObj]
+      cases checkSigs cfg C o.tx <;> simp <;> split <;> rfl
+    | hash => rfl
+    | toArray => rfl
+    | setAddrs as => rfl
+
+/-- … nor on any sequence of getter calls, earlier verification passes or assignments to `SignedAddr` that
+precede it: the verdict is the verdict on a freshly decoded copy. -/
+theorem C16_pre_ops_irrelevant (cfg : Cfg) (C : Crypto Key Sig) (wasmOK : Bytes → Bool) (tx : Tx) (pre : List Addr)
+    (ops : List PreOp) :
+    (verifyObj cfg C wasmOK (runPres cfg C wasmOK ⟨tx, pre⟩ ops).2).1 = (verifyObj cfg C wasmOK ⟨tx, []⟩).1 := by
+  have ht := runPres_tx cfg C wasmOK ⟨tx, pre⟩ ops
+  generalize (runPres cfg C wasmOK ⟨tx, pre⟩ ops).2 = o at ht
+  obtain ⟨tx', sa⟩ := o
+  simp only at ht
+  subst ht
+  exact (C16_state_irrelevant cfg C wasmOK tx' sa []).2
+
+/-- after an accepting pass, `GetSignatureAddresses()` (what `CheckWitness` consults) returns the validator's list,
+whatever was cached before -/
+theorem C16_seen_after_validation (cfg : Cfg) (C : Crypto Key Sig) (tx : Tx) (pre : List Addr) (addrs : List Addr)
+    (h : (checkSigsObj cfg C ⟨tx, pre⟩).1 = .ok addrs) :
+    (getSigAddrs cfg C.toLib (checkSigsObj cfg C ⟨tx, pre⟩).2).1 = addrs := by
+  obtain ⟨_, _, hp, hs⟩ := C16_accept_sound cfg C tx pre addrs h
+  rw [hs]
+  have hne : addrs.length ≠ 0 := by
+    intro h0
+    have : addrs = [] := List.eq_nil_of_length_eq_zero h0
+    simp [this] at hp
+  simp [getSigAddrs, hne]
 
 /-- **Payer.** The validator accepts only if the payer is one of the accounts derived from the signature sets;
 with any other payer the transaction is rejected (whatever the signatures are). -/
@@ -53,7 +124,7 @@ theorem C16_payer (cfg : Cfg) (C : Crypto Key Sig) (tx : Tx) (accts : List Addr)
 
 theorem C16_payer_of_accept (cfg : Cfg) (C : Crypto Key Sig) (tx : Tx) (addrs : List Addr)
     (h : checkSigs cfg C tx = .ok addrs) : derived cfg C tx = .ok addrs ∧ tx.payer ∈ addrs := by
-  obtain ⟨_, h2, h3⟩ := checkSigsWith_ok cfg C.toLib (verifier cfg C tx) tx addrs h
+  obtain ⟨_, h2, h3⟩ := checkSigsWith_ok cfg C.toLib (verifier C tx) tx addrs h
   exact ⟨h2, h3⟩
 
 /-- **The hash binds.** The verdict depends on the verification function only through its values at the message
@@ -62,7 +133,7 @@ every other message.  So every `verify` call the validator makes receives `H(tx.
 theorem C16_hash_binds (cfg : Cfg) (C C' : Crypto Key Sig) (tx : Tx) (hl : C'.toLib = C.toLib) (hH : C'.H = C.H)
     (hv : ∀ k s, C'.verify k (C.H tx.hashInput) s = C.verify k (C.H tx.hashInput) s) :
     checkSigs cfg C' tx = checkSigs cfg C tx := by
-  have : verifier cfg C' tx = verifier cfg C tx := by
+  have : verifier C' tx = verifier C tx := by
     funext k s
     simp only [verifier, txMsg, hH, hv]
   simp only [checkSigs, hl, this]
@@ -101,12 +172,12 @@ theorem C16_distinct_indexes_iff (keys : List Key) :
         have := h (i + 1) (j + 1) (by simpa using hi) (by simpa using he)
         omega
 
-/-- **No panic once the library call is guarded.** With `shortSig := .sound` (the repaired `signature.Verify`) and
+/-- **No panic.** With the guarded library call (`signature.verify`, repaired in /repo) and
 a library whose key serialisation is never empty, the signature check cannot panic: the index expressions
 `sig.SigData[0]`, `sigs[i]` and the `PushBytes` panic are unreachable. -/
-theorem C16_no_panic (cfg : Cfg) (hs : cfg.shortSig = .sound) (C : Crypto Key Sig)
+theorem C16_no_panic (cfg : Cfg) (C : Crypto Key Sig)
     (hser : ∀ k, (C.serKey k).length ≠ 0) (tx : Tx) : checkSigs cfg C tx ≠ .panic :=
-  checkSigs_no_panic cfg hs C hser tx
+  checkSigs_no_panic cfg C hser tx
 
 /-- the loops of `GetParamInfo` / `GetProgramInfo` never run out of the fuel the model gives them: the result is the
 same for every sufficient amount (so `none` always stands for a parse error of the Go code, never for exhaustion) -/
@@ -129,13 +200,13 @@ end
 /-- With duplicate keys rejected (`dupKeys := .sound`) the full statement holds. -/
 theorem C16_full_sound (cfg : Cfg) (hs : cfg.dupKeys = .sound) : C16_full_statement cfg := by
   intro Key Sig _ C tx addrs h
-  obtain ⟨_, h2, h3⟩ := checkSigsWith_ok cfg C.toLib (verifier cfg C tx) tx addrs h
+  obtain ⟨_, h2, h3⟩ := checkSigsWith_ok cfg C.toLib (verifier C tx) tx addrs h
   refine ⟨?_, h3⟩
   refine (checkAll_ok cfg C.toLib _ tx.sigs addrs h2).imp ?_
   intro rs a hrs
   obtain ⟨sigs, m, keys, f⟩ := checkSigSet_ok cfg C.toLib _ rs a hrs
   refine ⟨sigs, m, keys, f.parsed, ?_, f.addr⟩
-  exact (f.matched.imp (fun k s hv => (vres_ok cfg _).mp hv)).toKeys (f.nodup hs)
+  exact (f.matched.imp (fun k s hv => (guard_ok _).mp hv)).toKeys (f.nodup hs)
 
 /-! ## Witnesses (toy library `Proofs.SigCheck.toy`: a key is 4 bytes `[id,0,0,0]`, the signature of key `id` over any
 message is `[id]`, `h160` and `H` are the identity) -/
@@ -172,12 +243,8 @@ theorem C16_asShipped_counterexample : ¬ C16_full_statement Cfg.asShipped := by
         simp at hn
 
 
-/-- the shipped validator panics on an Ethereum-type key with a short KECCAK signature (toy: signature `[0x0b]`) … -/
-theorem C16_asShipped_panics :
-    checkSigs Cfg.asShipped toy ⟨0, 0xd1, 0, 0, 0, [0xEE, 200], .invoke [], [([1, 0x0b], [4, 200, 0, 0, 0, 0xAC])], [], []⟩
-      = .panic := by decide
-/-- … the guarded one rejects -/
-example : checkSigs Cfg.sound toy ⟨0, 0xd1, 0, 0, 0, [0xEE, 200], .invoke [], [([1, 0x0b], [4, 200, 0, 0, 0, 0xAC])], [], []⟩
+/-- a library panic (toy: signature `[0x0b]`) is a failed verification, not a panic of the validator -/
+example : checkSigs Cfg.asShipped toy ⟨0, 0xd1, 0, 0, 0, [0xEE, 200], .invoke [], [([1, 0x0b], [4, 200, 0, 0, 0, 0xAC])], [], []⟩
       = .reject := by decide
 
 /-- the repaired check rejects the duplicate-key script -/
@@ -201,5 +268,24 @@ example : derived Cfg.asShipped toy { okTx with payer := [1, 2, 3] } = .ok [okSc
 example : checkSigs Cfg.asShipped { toy with verify := fun k msg s => if msg = [] then toy.verify k msg s else .ok } okTx
     = checkSigs Cfg.asShipped toy okTx :=
   C16_hash_binds _ _ _ _ rfl rfl (fun _ _ => by simp [okTx, toy])
+
+/-! Object state: a forged transaction (signature of key 3 where key 9 and 5 are required; payer not a signer) whose
+`SignedAddr` was filled by the getter before validation. -/
+
+def forgedTx : Tx := { okTx with sigs := [([1, 3, 1, 3], okScript)] }
+def forgedAfterGetter : TxObj := (getSigAddrs Cfg.asShipped toy.toLib ⟨forgedTx, []⟩).2
+
+/-- the getter filled the cache from the claimed script, verifying nothing … -/
+example : forgedAfterGetter.signedAddr = [okScript] := by decide
+/-- … the validator still rejects (instance of `C16_state_irrelevant`) … -/
+example : (checkSigsObj Cfg.asShipped toy forgedAfterGetter).1 = .reject := by decide
+/-- … whereas a validator that trusts a non-empty `SignedAddr` accepts the forgery: the mirrored model of such a
+change falsifies `C16_accept_sound` (no signature of the script's keys verifies). -/
+theorem C16_trusting_validator_unsound :
+    (checkSigsObjTrusting Cfg.asShipped toy forgedAfterGetter).1 = .ok [okScript] ∧
+    checkSigs Cfg.asShipped toy forgedAfterGetter.tx = .reject := by decide
+/-- verifying twice: same verdict, same list -/
+example : (checkSigsObj Cfg.asShipped toy (checkSigsObj Cfg.asShipped toy ⟨okTx, []⟩).2)
+    = (checkSigsObj Cfg.asShipped toy ⟨okTx, []⟩) := by decide
 
 end OntVerif.Props.C16
